@@ -12,7 +12,7 @@ import (
 func init() {
 	Register(&Property{
 		ID:    "C21",
-		Floor: 38,
+		Floor: 45,
 		Clauses: "local streams: the localStreamLimits gate is released only through localStreamLimits.unlock, whose condition is opened<max; opened is written only by open (opened+1, after waitAndLock succeeded and under opened>=0, returning the old value) and connHasClosed; " +
 			"open is called only by Conn.newLocalStream, which builds the stream id from open's result and creates the stream only after open succeeded; max is written only by setMax as max(old,new), fed from the MAX_STREAMS frame value. " +
 			"remote streams: remoteStreamLimits.open rejects num>=max with STREAM_LIMIT_ERROR before touching opened and before returning nil; opened only moves forward (store guarded by num>=opened, value num+1); " +
@@ -28,16 +28,16 @@ func c21(c *Ctx) {
 	const R = "(*quic.remoteStreamLimits)."
 
 	// ---- local limit gate
-	c21gate(c)
+	qaC21gate(c)
 	c.Writers("quic.localStreamLimits.opened", L+"open", L+"connHasClosed")
 	open := L + "open"
 	opened := Stores("quic.localStreamLimits.opened")
-	c.StoreShapes(open, "quic.localStreamLimits.opened", "inc")
+	c.QaStoreShapes(open, "quic.localStreamLimits.opened", "inc")
 	c.Reject(open, opened, "waitAndLock(&$r.gate,$0) != nil")
 	c.Guard(open, opened, "$r.opened >= 0")
-	c.GuardAny(open, ResultNilErr(), []string{"waitAndLock(&$r.gate,$0) == nil", "$r.opened >= 0"})
-	c.Before(open, ResultIs(0, "$r.opened"), opened)
-	c.Paired(open, ResultNilErr(), opened)
+	c.QaGuardAny(open, QaResultNilErr(), []string{"waitAndLock(&$r.gate,$0) == nil", "$r.opened >= 0"})
+	c.Before(open, QaResultIs(0, "$r.opened"), opened)
+	c.QaPaired(open, QaResultNilErr(), opened)
 	c.Before(open, Defers(L+"unlock"), opened)
 	c.Callers(open, "(*quic.Conn).newLocalStream")
 	nls := "(*quic.Conn).newLocalStream"
@@ -45,28 +45,28 @@ func c21(c *Ctx) {
 	c.Has(nls, Calls("quic.newStreamID").ArgIs(0, "$r.side").ArgIs(1, "$1").ArgIs(2, "open(&$r.streams.localLimit[$1],$0,$r)#0"))
 	c.ArgFrom(nls, Calls("quic.newStream"), 1, "newStreamID(side, type, open result)", IsCallTo("quic.newStreamID"))
 	c.Writers("quic.localStreamLimits.max", L+"setMax")
-	c.StoreShapes(L+"setMax", "quic.localStreamLimits.max", "max", "guarded")
+	c.QaStoreShapes(L+"setMax", "quic.localStreamLimits.max", "max", "guarded")
 	c.Has("(*quic.Conn).handleMaxStreamsFrame", Calls(L+"setMax").ArgIs(0, "&$r.streams.localLimit[consumeMaxStreamsFrame($1)#0]").ArgIs(1, "consumeMaxStreamsFrame($1)#1"))
 	c.Callers(L+"setMax", "(*quic.Conn).handleMaxStreamsFrame", "(*quic.Conn).receiveTransportParameters")
-	c.Has(L+"wasOpened", ResultIs(0, "($0<$r.opened)"))
+	c.Has(L+"wasOpened", QaResultIs(0, "($0<$r.opened)"))
 
 	// ---- remote limit
 	ropen := R + "open"
 	ropened := Stores("quic.remoteStreamLimits.opened")
 	c.Reject(ropen, Union(ropened, RetOK(), Calls(R+"maybeUpdateMax")), "num($0) >= $r.max")
 	sl, _ := c.P.ConstInt("quic.errStreamLimit")
-	c.Has(ropen, c.Under_quica(Stores("quic.localTransportError.code").StoredIs(fmt.Sprint(sl)), "num($0) >= $r.max"))
+	c.Has(ropen, c.QaUnder(Stores("quic.localTransportError.code").StoredIs(fmt.Sprint(sl)), "num($0) >= $r.max"))
 	c.Guard(ropen, ropened, "num($0) >= $r.opened")
 	c.Has(ropen, ropened.StoredIs("(num($0)+1)"))
 	c.Writers("quic.remoteStreamLimits.opened", ropen, R+"init")
 	c.Writers("quic.remoteStreamLimits.closed", R+"close")
-	c.StoreShapes(R+"close", "quic.remoteStreamLimits.closed", "inc")
+	c.QaStoreShapes(R+"close", "quic.remoteStreamLimits.closed", "inc")
 	c.Writers("quic.remoteStreamLimits.maxOpen", R+"init")
 	c.Writers("quic.remoteStreamLimits.max", R+"init", R+"maybeUpdateMax")
 	mum := R + "maybeUpdateMax"
-	c.StoreShapes(mum, "quic.remoteStreamLimits.max", "guarded", "max")
-	c.StoredSatisfies(mum, Stores("quic.remoteStreamLimits.max"), "min(closed+maxOpen, …)", MinWith("($r.closed+$r.maxOpen)"))
-	c.StoredSatisfies(R+"init", Stores("quic.remoteStreamLimits.max"), "min(maxOpen, …)", MinWith("$0"))
+	c.QaStoreShapes(mum, "quic.remoteStreamLimits.max", "guarded", "max")
+	c.QaStoredSatisfies(mum, Stores("quic.remoteStreamLimits.max"), "min(closed+maxOpen, …)", QaMinWith("($r.closed+$r.maxOpen)"))
+	c.QaStoredSatisfies(R+"init", Stores("quic.remoteStreamLimits.max"), "min(maxOpen, …)", QaMinWith("$0"))
 	c.Has(R+"init", Stores("quic.remoteStreamLimits.maxOpen").StoredIs("$0"))
 	c.Has(R+"appendFrame", Calls("(*quic.packetWriter).appendMaxStreamsFrame").ArgIs(1, "$1").ArgIs(2, "$r.max"))
 	c.Callers("(*quic.packetWriter).appendMaxStreamsFrame", R+"appendFrame", "(quic.debugFrameMaxStreams).write")
@@ -92,13 +92,13 @@ func c21(c *Ctx) {
 	c.Guard(asf, cls, "$r.side != initiator($r.streams.queueMeta.head.id)")
 	c.Has(asf, cls.ArgIs(0, "&$r.streams.remoteLimit[streamType($r.streams.queueMeta.head.id)]"))
 	c.Before(asf, Calls("builtin:delete"), cls)
-	c21doneMask(c, asf, cls)
+	qaC21doneMask(c, asf, cls)
 }
 
-// c21gate: every release of a localStreamLimits gate goes through
+// qaC21gate: every release of a localStreamLimits gate goes through
 // localStreamLimits.unlock with the condition opened < max.
-func c21gate(c *Ctx) {
-	isGate := c.P.IsAddrOf("quic.localStreamLimits.gate")
+func qaC21gate(c *Ctx) {
+	isGate := c.P.QaIsAddrOf("quic.localStreamLimits.gate")
 	n := 0
 	ok := true
 	construct := "releases of localStreamLimits.gate ⊆ {(*quic.localStreamLimits).unlock}"
@@ -135,9 +135,9 @@ func c21gate(c *Ctx) {
 	}
 }
 
-// c21doneMask: remoteLimit.close is reached only under
+// qaC21doneMask: remoteLimit.close is reached only under
 // state&(streamInDone|streamOutDone) == streamInDone|streamOutDone.
-func c21doneMask(c *Ctx, fnName string, sel Sel) {
+func qaC21doneMask(c *Ctx, fnName string, sel Sel) {
 	construct := fnName + ": [" + sel.Name + "] under state&(streamInDone|streamOutDone) == both"
 	fn := c.MustFn(fnName)
 	if fn == nil {
@@ -151,7 +151,7 @@ func c21doneMask(c *Ctx, fnName string, sel Sel) {
 	}
 	mask := in1 | out1
 	isMask := func(v ssa.Value) bool {
-		s, ok := ConstSet(v)
+		s, ok := QaConstSet(v)
 		return ok && len(s) == 1 && s[mask]
 	}
 	sites := sel.F(c.P, fn)
@@ -168,7 +168,7 @@ func c21doneMask(c *Ctx, fnName string, sel Sel) {
 			}
 			for i, side := range []ssa.Value{b.X, b.Y} {
 				other := []ssa.Value{b.Y, b.X}[i]
-				if a, ok := StripConv_quica(side).(*ssa.BinOp); ok && a.Op == token.AND && (isMask(a.X) || isMask(a.Y)) && isMask(other) {
+				if a, ok := QaStripConv(side).(*ssa.BinOp); ok && a.Op == token.AND && (isMask(a.X) || isMask(a.Y)) && isMask(other) {
 					good = true
 				}
 			}
